@@ -25,6 +25,7 @@ func Harness_C10_stress() {
 	n := zz.NondetUint64("rateN")
 	m := zz.NondetUint64("rateM")
 	zz.Assume(m <= n)
+	zz.SearchOnReplay("traceID") // the hash of the ID is an uninterpreted function in the engine
 	id := zz.NondetStringN("traceID", 2)
 	sN := verifStress(n)
 	sM := verifStress(m)
@@ -41,8 +42,7 @@ func Harness_C10_stress() {
 		zz.Assert(rN == 1, "rate <= 1 reports 1")
 	} else {
 		zz.Assert(rN == uint(n), "reported rate is the configured rate")
-		ub := sN.upperBound
-		zz.Assert(ub == math.MaxUint64/n, "threshold = floor(MAX/N)")
-		zz.Assert(keepN == (zz.Wyhash(id, hashSeed) <= ub), "keep iff hash <= threshold")
+		// stated on the observable decision only (no reference to how the threshold is stored)
+		zz.Assert(keepN == (zz.Wyhash(id, hashSeed) <= math.MaxUint64/n), "keep iff hash <= floor(MAX/N)")
 	}
 }
